@@ -5,7 +5,7 @@
    read back to the same second for every second of 1678..2261 - C16_date_roundtrip, with a strict reader of the
    canonical text, the leniency of date::from_stream being outside the model). *)
 From Coq Require Import Ascii String List NArith ZArith Arith.
-Require Import Bytes NumParse NetLemmas HeaderModel HeaderLemmas DateModel DateLemmas.
+Require Import Bytes NumParse NetLemmas HeaderModel HeaderLemmas DateModel DateSweepDefs DateLemmas.
 Import ListNotations.
 
 Theorem C16_content_length_roundtrip : forall n, (n <= 18446744073709551615)%N -> cl_parse (cl_write n) = n.
@@ -71,7 +71,7 @@ Proof. exact date_write_injective. Qed.
 Print Assumptions C16_date_write_injective.
 
 Theorem C16_date_calendar : forall d, day_lo <= d < day_lo + day_count ->
-  let '(y, m, dd) := civil_from_days d in
+  forall y m dd, civil_from_days d = (y, m, dd) ->
   days_from_civil y m dd = d /\ 1 <= m <= 12 /\ 1 <= dd <= last_day y m /\ 1678 <= y <= 2261.
 Proof. exact civil_roundtrip. Qed.
 Print Assumptions C16_date_calendar.
